@@ -1,5 +1,6 @@
 import BFL.Driver.Proto
 import BFL.Model.AnyBox
+import BFL.Model.AnyBoxMem
 /-
 Driver entries of the `any` container (C20).
 
@@ -12,7 +13,8 @@ prints the final counters and the number of cells still allocated.
 
 Operation tokens (fields separated by `:`; cat = l|c|r|x for T&, const T&, T&&, const T&&;
 tag = i|d|s|m|p|t; form = l|c|r|m; a leading `!` runs the operation with the throwing probe `t` armed:
-its next copy construction throws):
+its next copy construction throws; a leading `~` / `~~`: the first / second call of `operator new` inside the
+operation throws `std::bad_alloc`):
   df:k  ca:k:src:cat  cv:k:cat:tag:code  aa:a:b:cat  av:a:cat:tag:code  rs:a  sw:a:b:free
   ds:a  pk:a:tag:code  pr:a:tag:code  vc:a:tag:form  pc:a|n:tag:const
 -/
@@ -78,9 +80,13 @@ def isProbeMove : Ev → Bool
   | .move .thr => true
   | _ => false
 
-/-- `!op`: the operation is run with the throwing probe armed -/
-def parseXOp (tok : String) : Option (Op × Bool) :=
-  if tok.startsWith "!" then (parseOp (tok.drop 1).toString).map (·, true) else (parseOp tok).map (·, false)
+/-- `!op`: the operation is run with the throwing probe armed; `~op` / `~~op`: its first / second call of
+    `operator new` throws `std::bad_alloc` -/
+def parseXOp (tok : String) : Option (Op × Fault) :=
+  if tok.startsWith "!" then (parseOp (tok.drop 1).toString).map (·, .copyThrows)
+  else if tok.startsWith "~~" then (parseOp (tok.drop 2).toString).map (·, .newFails 1)
+  else if tok.startsWith "~" then (parseOp (tok.drop 1).toString).map (·, .newFails 0)
+  else (parseOp tok).map (·, .none)
 
 def countersStr (s : St) : String :=
   "c=" ++ toString (liveOfTag s .probe + liveOfTag s .thr) ++ "/" ++ toString (countEv s isProbeCopy) ++ "/" ++ toString (countEv s isProbeMove)
@@ -95,28 +101,74 @@ def slotStr (s : St) (k : Nat) : String :=
 
 def viewStr (n : Nat) (s : St) : List String := (List.range n).map (slotStr s)
 
-def runSeq (n : Nat) (full : Bool) : St → List (Op × Bool) → List String → List String
+def runSeq (n : Nat) (full : Bool) : St → List (Op × Fault) → List String → List String
   | s, [], acc =>
     let s' := destroyAll n s
     (("leak=" ++ toString (liveCells s').length) :: countersStr s' :: "END" :: acc).reverse
   | s, op :: rest, acc =>
-    let r := stepX n s op
+    let r := stepF n s op
     let acc := countersStr r.1 :: outStr r.2 :: acc
     let acc := if full || rest.isEmpty then (viewStr n r.1).reverse ++ acc else acc
     runSeq n full r.1 rest acc
 
+/-- mode token `F` / `L`, optionally followed by `:<member>` naming the probe types the harness uses behind the tags
+    p and t (sizes 1..64 bytes, noexcept or potentially throwing move constructor): any.h does not look at the size or
+    the exception specification of the held type, so the model is the same for every member. -/
+def modeOf (mode : String) : R Bool :=
+  if mode == "F" || mode.startsWith "F:" then pure true
+  else if mode == "L" || mode.startsWith "L:" then pure false
+  else failure
+
 def anyseq : R String := do
   let n ← nat
   let mode ← tok
-  let full ← (match mode with | "F" => pure true | "L" => pure false | _ => failure : R Bool)
+  let full ← modeOf mode
   let toks ← get
   set ([] : List String)
-  let ops ← (toks.mapM parseXOp : Option (List (Op × Bool)))
+  let ops ← (toks.mapM parseXOp : Option (List (Op × Fault)))
   pure (join (runSeq n full init ops []))
+
+/-! `anyspec`: the same case line run on the value-semantic specification (`specStepX` on the abstract pool; no heap,
+    no pointers).  Same output format; the numbers of copy / move constructions are not part of the specification
+    (printed as 0), `leak=` is the number of held objects left after destroying every container. -/
+
+def specCountersStr (n : Nat) (p : APool) : String :=
+  "c=" ++ toString (specLiveOfTag n p .probe + specLiveOfTag n p .thr) ++ "/0/0"
+
+def specSlotStr (p : APool) (k : Nat) : String :=
+  match specViewSlot p k with
+  | none => "D"
+  | some v =>
+    (if v.hasValue then "1" else "0") ++ (match v.type with | none => "v" | some t => tagStr t) ++ ":" ++
+      ",".intercalate (v.ptr.map ovStr) ++ ":" ++ ",".intercalate (v.cptr.map ovStr) ++ ":" ++
+      ",".intercalate (v.ref.map ovStr)
+
+def specLeft (n : Nat) (p : APool) : Nat :=
+  ((List.range n).filter fun k => (aHeld p k).isSome).length
+
+def runSpecSeq (n : Nat) (full : Bool) : APool → List (Op × Fault) → List String → List String
+  | p, [], acc =>
+    let p' := specRun n p ((List.range n).map Op.destroy)
+    (("leak=" ++ toString (specLeft n p')) :: specCountersStr n p' :: "END" :: acc).reverse
+  | p, op :: rest, acc =>
+    let r := specStepF n p op
+    let acc := specCountersStr n r.1 :: outStr r.2 :: acc
+    let acc := if full || rest.isEmpty then ((List.range n).map (specSlotStr r.1)).reverse ++ acc else acc
+    runSpecSeq n full r.1 rest acc
+
+def anyspec : R String := do
+  let n ← nat
+  let mode ← tok
+  let full ← modeOf mode
+  let toks ← get
+  set ([] : List String)
+  let ops ← (toks.mapM parseXOp : Option (List (Op × Fault)))
+  pure (join (runSpecSeq n full (absPool init) ops []))
 
 def handle (op : String) (args : List String) : Option String :=
   match op with
   | "anyseq" => some ((run anyseq args).getD "bad-args")
+  | "anyspec" => some ((run anyspec args).getD "bad-args")
   | _ => none
 
 end BFL.DriverAnyBox
